@@ -19,144 +19,7 @@ from ..symx import Sym, Explorer, load_shimmed, model_value
 PYX = "/repo/src/chmpy/shape/_invariants.pyx"
 
 
-class Poly:
-    """multivariate polynomial {monomial: coefficient} whose coefficients are closed z3 terms over algebraic
-    numbers (rationals and square roots); used to expand the P invariants exactly"""
-    __slots__ = ("d",)
-
-    def __init__(self, d=None):
-        self.d = d or {}
-
-    @staticmethod
-    def var(name):
-        return Poly({((name, 1),): z3.RealVal(1)})
-
-    @staticmethod
-    def const(c):
-        if isinstance(c, Poly):
-            return c
-        if isinstance(c, Sym):
-            t = z3.simplify(c.real())
-        else:
-            t = z3.RealVal(symx._nice_fraction(float(c)) if isinstance(c, (float, np.floating)) else Fraction(c))
-        return Poly({(): t})
-
-    def __add__(self, o):
-        o = Poly.const(o)
-        d = dict(self.d)
-        for k, v in o.d.items():
-            d[k] = z3.simplify(d[k] + v) if k in d else v
-        return Poly(d)
-    __radd__ = __add__
-
-    def __neg__(self):
-        return Poly({k: z3.simplify(-v) for k, v in self.d.items()})
-
-    def __sub__(self, o):
-        return self + (-Poly.const(o))
-
-    def __rsub__(self, o):
-        return Poly.const(o) - self
-
-    def __mul__(self, o):
-        if isinstance(o, np.ndarray):
-            return NotImplemented
-        o = Poly.const(o)
-        d = {}
-        for k1, v1 in self.d.items():
-            for k2, v2 in o.d.items():
-                mono = {}
-                for n_, e_ in k1 + k2:
-                    mono[n_] = mono.get(n_, 0) + e_
-                k = tuple(sorted(mono.items()))
-                v = z3.simplify(v1 * v2)
-                d[k] = z3.simplify(d[k] + v) if k in d else v
-        return Poly(d)
-    __rmul__ = __mul__
-
-    def __truediv__(self, o):
-        return self * Sym(1 / Poly.const(o).d[()])
-
-
-class SymC:
-    """symbolic complex number (pair of symx reals or exact polynomials)"""
-    __slots__ = ("re", "im")
-
-    def __init__(self, re, im=0):
-        self.re = re if isinstance(re, (Sym, Poly)) else Sym._lift(re)
-        self.im = im if isinstance(im, (Sym, Poly)) else Sym._lift(im)
-
-    @staticmethod
-    def lift(o):
-        if isinstance(o, SymC):
-            return o
-        if isinstance(o, complex):
-            return SymC(float(o.real), float(o.imag))
-        if isinstance(o, (Sym, Poly, int, float, Fraction, np.integer, np.floating)):
-            return SymC(o, 0)
-        return None
-
-    def __add__(self, o):
-        o = SymC.lift(o)
-        return NotImplemented if o is None else SymC(self.re + o.re, self.im + o.im)
-    __radd__ = __add__
-
-    def __sub__(self, o):
-        o = SymC.lift(o)
-        return NotImplemented if o is None else SymC(self.re - o.re, self.im - o.im)
-
-    def __rsub__(self, o):
-        o = SymC.lift(o)
-        return NotImplemented if o is None else o - self
-
-    def __mul__(self, o):
-        if isinstance(o, np.ndarray):
-            return NotImplemented
-        o = SymC.lift(o)
-        return NotImplemented if o is None else SymC(self.re * o.re - self.im * o.im, self.re * o.im + self.im * o.re)
-    __rmul__ = __mul__
-
-    def __truediv__(self, o):
-        if isinstance(o, (int, float, Fraction, Sym)):
-            return SymC(self.re / o, self.im / o)
-        return NotImplemented
-
-    def __neg__(self):
-        return SymC(-self.re, -self.im)
-
-    def conjugate(self):
-        return SymC(self.re, -self.im)
-    conj = conjugate
-
-    @property
-    def real(self):
-        return self.re
-
-    @property
-    def imag(self):
-        return self.im
-
-    def __abs__(self):
-        return (self.re * self.re + self.im * self.im).sqrt()
-
-    def __pow__(self, n):
-        r = SymC(1, 0)
-        for _ in range(int(n)):
-            r = r * self
-        return r
-
-
-symx.register_symtype(SymC)
-
-
-def coeffs(n, tag="c", poly=False):
-    a = np.empty(n, dtype=object)
-    for k in range(n):
-        if poly:
-            a[k] = SymC(Poly.var("%sr%d" % (tag, k)), Poly.var("%si%d" % (tag, k)))
-        else:
-            a[k] = SymC(Sym(z3.Real("%sr%d" % (tag, k))), Sym(z3.Real("%si%d" % (tag, k))))
-    return a.view(symx.OArr)
+from ..symc import SymC, Poly, coeffs  # noqa: E402
 
 
 # ------------------------------------------------------------------------------- replays
